@@ -103,11 +103,7 @@ def replay(g, o, assigns, path):
 
 MANIFEST = {
     "category": "proof",
-    "text": "Scalar kernels (the stable Givens rotation with its Taylor branch) are proved loop-free over the FULL finite domain in binary32 (quick) and binary64 (thorough): "
-            "no NaN, exact y==0 / x==0 cases with the documented signs, |c|,|s|<=1, sign conventions, no collapse (max(|c|,|s|)>=0.70), |.|_max <= r <= 1.5|.|_max. "
-            "TridiagQR::matrix_QtHQ keeps the tridiagonal, exactly symmetric shape (UNBOUNDED frame proof). Other matrix kernels are BOUNDED stand-ins at concrete n with full "
-            "unwinding: Hessenberg QR (R exactly triangular, Q'HQ exactly Hessenberg, memory safety), TridiagQR::compute, DoubleShiftQR (block splitting, bulge chase for every concrete "
-            "block, apply_YQ: memory safety and reflector well-formedness). Orthogonality and similarity to n*eps are numerical and NOT decided.",
+    "text": "Scalar kernels (the stable Givens rotation with its Taylor branch, stable_norm3, the reflector mark nr) are proved loop-free over the FULL finite domain in binary32 (quick) and binary64 (thorough): no NaN, exact y==0 / x==0 cases with the documented signs, |c|,|s|<=1, sign conventions, no collapse (max(|c|,|s|)>=0.70), |.|_max <= r <= 1.5|.|_max. UNBOUNDED in n: TridiagQR::compute (band arrays, c/s pointer walks) and matrix_QtHQ (tridiagonal, exactly symmetric shape, also into a reused destination); on the cursor model of the raw pointer walks UpperHessenbergQR::compute (R exactly upper triangular), matrix_QtHQ (Q'HQ exactly upper Hessenberg), apply_YQ (memory safety), and DoubleShiftQR compute / update_block / apply_YQ / apply_QtY (every block, coefficient and pointer access inside the matrix, blocks partition 0..n-1, reflector record nr[q] in {1,2,3} with q + nr[q] <= n). BOUNDED at concrete n with full unwinding: the real flattened address arithmetic of the same kernels, and UpperHessenbergQR::apply_YQ as the EXACT product Y*G_0*...*G_{n-2} (uninterpreted arithmetic on both sides). Orthogonality and similarity to n*eps are numerical and NOT decided.",
     "note": "CBMC's IEEE model trusted; bounded groups are labelled with their bound in the evidence and never counted in obligations/discharged of the proof part",
-    "technique": "CBMC full-domain loop-free float proofs (kissat) + bounded unwinding of the raw-pointer kernels at concrete n",
+    "technique": 'CBMC full-domain loop-free float proofs (kissat) + dfcc loop contracts on cursor models of the raw-pointer kernels (cadical) + bounded unwinding of the real address arithmetic at concrete n',
 }
